@@ -422,8 +422,8 @@ func genCase(t *rapid.T) Case {
 	case "ri":
 		s := gen.RouterInfoG(t, "ri", []int{7})
 		s.Ident.NullCert = false
-		if s.Published > 8000000000000 { // time.Time -> Date beyond 2262 is C12/C15's subject
-			s.Published = s.Published%8000000000000 + 1
+		if s.Published >= 1<<63 {
+			s.Published >>= 1
 		}
 		for i := range s.Addrs {
 			if s.Addrs[i].Style == "" {
